@@ -57,7 +57,8 @@ def runScript (g : Guards) (mid : Int) : List RespSpec → List Resp
     handler being `k`; and what each handler does -/
 structure Cfg where
   regs : List (Reg Nat)
-  script : Nat → List RespSpec
+  /-- what handler `k` writes when it is given the decoded message -/
+  script : Nat → Msg → List RespSpec
 
 def noHandlerDiag : Bytes :=   -- "No matching handler found"
   [78, 111, 32, 109, 97, 116, 99, 104, 105, 110, 103, 32, 104, 97, 110, 100, 108, 101, 114, 32, 102, 111, 117, 110, 100]
@@ -66,18 +67,18 @@ def noHandlerDiag : Bytes :=   -- "No matching handler found"
 def refusal (id : Int) (tag code : Nat) : Resp :=
   newResponse id [.code code, .diag noHandlerDiag, .appCode tag]
 
-def effectResps (g : Guards) (cfg : Cfg) (mid : Int) : Effect Nat → List Resp
-  | .invoke h => runScript g mid (cfg.script h)
+def effectResps (g : Guards) (cfg : Cfg) (msg : Msg) : Effect Nat → List Resp
+  | .invoke h => runScript g msg.id (cfg.script h msg)
   | .refuse id tag code => [refusal id tag code]
 
 /-- every response written on the connection because of one decoded request (not an Unbind) -/
 def respondR (table : Option (List (Bytes × Nat))) (g : Guards) (cfg : Cfg) (msg : Msg) : List Resp :=
-  (serve table (Mux.build cfg.regs) msg).flatMap (effectResps g cfg msg.id)
+  (serve table (Mux.build cfg.regs) msg).flatMap (effectResps g cfg msg)
 
 /-- the optional unbind handler (conn.go calls it with the request and a writer) -/
 def respondUnbindR (g : Guards) (cfg : Cfg) (mid : Int) : List Resp :=
   match (Mux.build cfg.regs).unbind with
-  | some h => runScript g mid (cfg.script h)
+  | some h => runScript g mid (cfg.script h (.unbind mid))
   | none => []
 
 /-- ... as the frames `ResponseWriter.Write` sends -/
